@@ -31,6 +31,10 @@ def pick_insert(p, kv, n, desc):
         s = shape.multiplicity(kv, u)
         if kind != "in" or s >= p:
             return None
+    if s == 0 and min(abs(u - k) for k in kv) < 1e-4:
+        # the library identifies knots closer than 1e-7 (find_multiplicity tolerance); histories that keep
+        # subdividing the same span would drift into that band, which is outside the property's input domain
+        return None
     r = 1 + desc[3] % (p - s)
     return u, s, r
 
